@@ -28,7 +28,7 @@ REQUIRED = ["at_most_once_atomic", "at_most_one_success_atomic", "at_most_one_su
             "two_success_witness", "two_success_witness_mark", "at_most_once_fails_without_atomicity",
             "at_most_once_partial", "mark_separated_partial",
             "store_fault_fails_closed", "nonce_covers_window", "replay_window_empty_today", "s2s_no_replay_inside_window", "program_matches_api_calls",
-            "fact_consumer_calls", "fact_store_keys", "fact_call_sites", "fact_engine_wiring", "fact_store_users", "fact_prefixes_distinct", "fact_gad_atomic_today",
+            "fact_consumer_calls", "fact_store_keys", "fact_call_sites", "fact_engine_wiring", "fact_keyspace_disjoint", "keyspace_disjoint", "fact_store_users", "fact_prefixes_distinct", "fact_gad_atomic_today",
             "fact_mark_atomic_today", "fact_session_store_shapes", "fact_ttls_positive", "two_success_witness_multinode"]
 
 
@@ -144,7 +144,7 @@ def run(ctx):
         bad += [base + k for k in b1]
 
     # ---- direct property oracle on the implementation's own outputs
-    n_bad, seen, n_window = 0, set(), 0
+    n_bad, seen, n_window, n_cross = 0, set(), 0, 0
     lw = Counter()
     kinds, sizes, backends, succ_hist = Counter(), Counter(), Counter(), Counter()
     distinct = set()
@@ -166,6 +166,16 @@ def run(ctx):
                     ctx.violation(sig, f"a JSON-LD presentation (validity {op['validity']} s, skew {op['skew']} s) first used at window offset {op['first']} s is accepted "
                                   f"again at offset {op['replay']} s: still inside its acceptance window of {win} s, but the nonce is already forgotten: {line}",
                                   "s2s_nonce_window.jsonl", ops[i])
+            continue
+        if op.get("op") == "cross":
+            n_cross += 1
+            if " replay=ok" in line:
+                n_bad += 1
+                sig = f"C05:{op['kind']}:iam:mem:honoured-after-hostile-response"
+                if sig not in seen:
+                    seen.add(sig)
+                    ctx.violation(sig, f"the {op['kind']} secret was honoured a second time after an authorization response with disagreeing challenges "
+                                  f"(drawn from the tails of every session-store key) had been posted: {line}", re.sub(r"[^A-Za-z0-9_.-]", "_", sig) + ".jsonl", ops[i])
             continue
         if op.get("op") != "run":
             continue
@@ -222,6 +232,7 @@ def run(ctx):
                        "strict Delete (memcached emulation), redis (miniredis); plus sequential replays around the TTL with clock control (miniredis). "
                        "One step = one underlying Get/Set/Delete of the real store. distinct_nontrivial = runs whose schedule really interleaves two threads")
     ctx.cov["window_probes"] = n_window
+    ctx.cov["hostile_response_probes"] = n_cross
     ctx.cov["input_distribution"] = {"threads_per_run": dict(sorted(sizes.items())), "kinds": dict(kinds), "backends": dict(backends),
                                      "success_count_histogram": dict(succ_hist), "distinct_runs": len(distinct)}
     ctx.cov["samples"] = [ops[0][:300] if ops else "", impl[0][:300] if impl else ""]
